@@ -45,11 +45,56 @@ pub struct StreamId {
     packed: u128,
 }
 
-/// A stream entry optimized for cache-friendly storage
+/// The field-value pairs of an entry: a LIST of pairs in the order given to XADD. A field name may
+/// occur more than once and every pair is kept (an entry is not a map).
+#[derive(Clone, Debug, Default, PartialEq, Eq)]
+pub struct FieldPairs(Vec<(Vec<u8>, Vec<u8>)>);
+
+impl FieldPairs {
+    pub fn new() -> Self { FieldPairs(Vec::new()) }
+    pub fn len(&self) -> usize { self.0.len() }
+    pub fn is_empty(&self) -> bool { self.0.is_empty() }
+    pub fn push(&mut self, field: Vec<u8>, value: Vec<u8>) { self.0.push((field, value)); }
+    pub fn iter(&self) -> std::slice::Iter<'_, (Vec<u8>, Vec<u8>)> { self.0.iter() }
+    /// Value of the last pair with this field name (what a map built from the pairs would hold)
+    pub fn get(&self, field: &[u8]) -> Option<&Vec<u8>> {
+        self.0.iter().rev().find(|(f, _)| f.as_slice() == field).map(|(_, v)| v)
+    }
+}
+
+impl std::ops::Index<&Vec<u8>> for FieldPairs {
+    type Output = Vec<u8>;
+    fn index(&self, field: &Vec<u8>) -> &Vec<u8> { self.get(field).expect("no such field in the entry") }
+}
+
+impl FromIterator<(Vec<u8>, Vec<u8>)> for FieldPairs {
+    fn from_iter<I: IntoIterator<Item = (Vec<u8>, Vec<u8>)>>(iter: I) -> Self { FieldPairs(iter.into_iter().collect()) }
+}
+
+impl IntoIterator for FieldPairs {
+    type Item = (Vec<u8>, Vec<u8>);
+    type IntoIter = std::vec::IntoIter<(Vec<u8>, Vec<u8>)>;
+    fn into_iter(self) -> Self::IntoIter { self.0.into_iter() }
+}
+
+impl<'a> IntoIterator for &'a FieldPairs {
+    type Item = &'a (Vec<u8>, Vec<u8>);
+    type IntoIter = std::slice::Iter<'a, (Vec<u8>, Vec<u8>)>;
+    fn into_iter(self) -> Self::IntoIter { self.0.iter() }
+}
+
+/// Containers an entry's pairs may be handed over in (the list itself, or a map for callers that
+/// build one). The bound lets `StreamEntry { id, fields: HashMap::new() }` infer its type.
+pub trait EntryFields {}
+impl EntryFields for FieldPairs {}
+impl EntryFields for HashMap<Vec<u8>, Vec<u8>> {}
+
+/// A stream entry optimized for cache-friendly storage. Stored and returned entries carry their
+/// pairs as `FieldPairs` (the default of `F`).
 #[derive(Clone, Debug)]
-pub struct StreamEntry {
+pub struct StreamEntry<F = FieldPairs> {
     pub id: StreamId,
-    pub fields: HashMap<Vec<u8>, Vec<u8>>,
+    pub fields: F,
 }
 
 /// Cache-coherent stream data protected by single mutex
@@ -239,7 +284,7 @@ impl StreamData {
     
     /// Add entry with auto-generated ID - OPTIMIZED HOT PATH
     #[inline]
-    fn add_auto(&mut self, fields: HashMap<Vec<u8>, Vec<u8>>, stream: &Stream) -> StreamId {
+    fn add_auto(&mut self, fields: FieldPairs, stream: &Stream) -> StreamId {
         let id = StreamId::generate_next_atomic(&stream.last_id_millis, &stream.last_id_seq);
         
         // Pre-calculate size before creating entry
@@ -263,7 +308,7 @@ impl StreamData {
     }
     
     /// Add entry with specific ID - NO CLONING!
-    fn add_with_id(&mut self, id: StreamId, fields: HashMap<Vec<u8>, Vec<u8>>, stream: &Stream) -> Result<(), &'static str> {
+    fn add_with_id(&mut self, id: StreamId, fields: FieldPairs, stream: &Stream) -> Result<(), &'static str> {
         if id <= self.last_id {
             return Err("The ID specified in XADD is equal or smaller than the target stream top item");
         }
@@ -376,15 +421,16 @@ impl Stream {
     }
     
     /// Add entry with auto-generated ID - DIRECT MUTATION, NO CLONING!
-    pub fn add_auto(&self, fields: HashMap<Vec<u8>, Vec<u8>>) -> StreamId {
+    /// The pairs are kept in the order the iterator yields them (a `Vec` of pairs: the order given).
+    pub fn add_auto(&self, fields: impl IntoIterator<Item = (Vec<u8>, Vec<u8>)>) -> StreamId {
         let mut data = self.data.lock().unwrap();
-        data.add_auto(fields, self)
+        data.add_auto(fields.into_iter().collect(), self)
     }
     
     /// Add entry with specific ID - DIRECT MUTATION, NO CLONING!
-    pub fn add_with_id(&self, id: StreamId, fields: HashMap<Vec<u8>, Vec<u8>>) -> Result<(), &'static str> {
+    pub fn add_with_id(&self, id: StreamId, fields: impl IntoIterator<Item = (Vec<u8>, Vec<u8>)>) -> Result<(), &'static str> {
         let mut data = self.data.lock().unwrap();
-        data.add_with_id(id, fields, self)
+        data.add_with_id(id, fields.into_iter().collect(), self)
     }
     
     /// The greatest ID ever added (0-0 for a stream that never had an entry)
